@@ -280,21 +280,25 @@ def g8(rng):
     decl = "const K: &str = \"ab\";\n"
     bad = [("const-item", "K"), ("variable", "v"), ("byte-string", "b\"ab\""), ("char", "'a'"), ("integer", "7"),
            ("format", "format!(\"ab\")"), ("path-const", "self::K"), ("ref-literal", "&\"ab\""), ("c-string", "c\"ab\""),
-           ("byte", "b'a'"), ("raw-byte-string", "br\"ab\""), ("parenthesized", "(\"ab\")")]
+           ("byte", "b'a'"), ("raw-byte-string", "br\"ab\""), ("parenthesized", "(\"ab\")"),
+           # non-literals hidden inside concat!(..): the whole pattern must still be rejected
+           ("concat-const-last", "concat!(\"a\", K)"), ("concat-const-first", "concat!(K, \"b\")"), ("concat-variable", "concat!(\"a\", v)"),
+           ("concat-underscore", "concat!(\"a\", _)"), ("concat-nested-const", "concat!(\"a\", concat!(K))"), ("concat-char", "concat!(\"a\", 'b')"),
+           ("concat-only-const", "concat!(K)"), ("concat-path-const", "concat!(\"a\", self::K, \"b\")")]
     for m in MATCH_METHODS:
         for name, b in bad:
             d = decl + ("" if name != "variable" else "")
             inv = pm_match(m, ["\"x\"", b], extra_decl=d).replace("pub fn f(mut p", "pub fn f(mut p")
-            if name == "variable":
+            if name in ("variable", "concat-variable"):
                 inv = inv.replace("{ let r =", "{ let v = \"ab\"; let r =")
-            ctl = pm_match(m, ["\"x\"", "\"ab\""], extra_decl=d)
+            ctl = pm_match(m, ["\"x\"", "concat!(\"a\", \"b\")" if name.startswith("concat") else "\"ab\""], extra_decl=d)
             out.append(("G8/%s/%s" % (m, name), inv, ctl))
     for m in TRIM_METHODS:
         for name, b in bad:
             inv = pm_trim(m, ["\"x\"", b], extra_decl=decl)
-            if name == "variable":
+            if name in ("variable", "concat-variable"):
                 inv = inv.replace("{ parser_method!", "{ let v = \"ab\"; parser_method!")
-            ctl = pm_trim(m, ["\"x\"", "\"ab\""], extra_decl=decl)
+            ctl = pm_trim(m, ["\"x\"", "concat!(\"a\", \"b\")" if name.startswith("concat") else "\"ab\""], extra_decl=decl)
             out.append(("G8/%s/%s" % (m, name), inv, ctl))
     return out
 
